@@ -31,7 +31,15 @@ MANIFEST = dict(
          "0..n-1 / n-1..0) whose branch condition makes it equal to one (reversed positions need strictly decreasing data); what reaches "
          "the engine in one call does not read an attribute in which an earlier call left a value derived from its limits; (5) bin count / bin size derivations and pass-through of the public wrapper.  The count "
          "conditions of (2) are also checked on the C engine's own effects (every counted datum is reached through the sort index, "
-         "which carries the min/max filter, with and without reverse indices).",
+         "which carries the min/max filter, with and without reverse indices).  Layout independence added for refactors: the private "
+         "Binner methods are found by what they do (the one that calls the engines, the one that stores 'wsort', ...), not by name; in C, "
+         "expression helpers (`return <expr>`) and validating helpers that hand back their argument or NULL are folded in, argument "
+         "rejections (`if (...) { PyErr_...; return NULL; }` before any work) are set aside and stated as an assumption, an early "
+         "`return value` reads as if/else; an element the engine reads back from a region it filled with a finished copy loop is the "
+         "copied value when no other store can reach the region (shown by adding up that store's loop conditions and guards), any other "
+         "read of self-written memory gives no verdict; the bin cursor may be `last bin` (from -1) or `last bin + 1` (from 0); an "
+         "unfiltered sort index with a limit given is accepted only on a path whose conditions say limit <= smallest / largest <= limit; "
+         "instance attributes that cache a function of the data (class invariant over every store) are read as that function.",
     note="Not decided: counts for particular data, floating-point rounding at bin edges. Assumes LP64 (argsort/arange give int64). "
          "Trusted: clang AST, sympy normaliser, numpy argsort(kind='stable').",
     technique="static analysis: cross-language sibling comparison of guarded-effect normal forms (clang AST vs Python ast), path-sensitive value flow over the wrapper functions, format/ABI agreement",
@@ -153,22 +161,237 @@ def _c_split_comma(n):
     return [n] if isinstance(n, dict) and n.get("kind") else []
 
 
+def _c_strip_casts(n):
+    while isinstance(n, dict) and n.get("kind") in ("ImplicitCastExpr", "ParenExpr", "CStyleCastExpr", "ConstantExpr") and n.get("inner"):
+        n = n["inner"][0]
+    return n
+
+
+def _c_unqual(t):
+    """the type without top-level / pointee const (the qualifier does not change what an expression computes)"""
+    t = " ".join(w for w in (t or "").replace("*", " * ").split() if w not in ("const", "volatile", "restrict", "register"))
+    return t.replace(" * ", " *").replace("* *", "**").strip()
+
+
+def _c_has_side_effect(n):
+    for x in cfront.walk(n):
+        k = x.get("kind")
+        if (k == "BinaryOperator" and x.get("opcode") == "=") or k == "CompoundAssignOperator" or (k == "UnaryOperator" and x.get("opcode") in ("++", "--")):
+            return True
+    return False
+
+
+def _c_subst_params(body, fname, amap):
+    """in place: references to the parameters of helper `fname` become the argument expressions, its locals get the prefix fname__"""
+    locs = {x["name"] for x in cfront.walk(body) if x.get("kind") == "VarDecl" and x.get("name")}
+
+    def rewrite(n):
+        if not isinstance(n, dict):
+            return
+        for i, ch in enumerate(n.get("inner", []) or []):
+            if isinstance(ch, dict) and ch.get("kind") == "DeclRefExpr":
+                nm = ch.get("referencedDecl", {}).get("name")
+                if ch.get("referencedDecl", {}).get("kind") == "ParmVarDecl" and nm in amap:
+                    n["inner"][i] = {"kind": "ParenExpr", "type": ch.get("type"), "line": ch.get("line"), "inner": [copy.deepcopy(amap[nm])]}
+                    continue
+                if nm in locs:
+                    ch["referencedDecl"] = dict(ch["referencedDecl"], name="%s__%s" % (fname, nm))
+            if isinstance(ch, dict) and ch.get("kind") == "VarDecl" and ch.get("name") in locs:
+                ch["name"] = "%s__%s" % (fname, ch["name"])
+            rewrite(ch)
+    rewrite(body)
+
+
+def _c_is_rejection(st):
+    """`if (c) { PyErr_...(...); return NULL; }` without else: the function raises instead of computing anything"""
+    if st.get("kind") != "IfStmt" or st.get("hasInit") or st.get("hasVar"):
+        return False
+    inner = [c for c in st["inner"] if isinstance(c, dict) and c.get("kind")]
+    if len(inner) != 2:
+        return False
+    arm = _c_block(inner[1])
+    if not arm or arm[-1].get("kind") != "ReturnStmt" or not arm[-1].get("inner") or not _c_is_null(arm[-1]["inner"][0]):
+        return False
+    return all(x.get("kind") == "NullStmt" or (x.get("kind") == "CallExpr" and (cfront.callee_name(x) or "").startswith(("PyErr_", "Py_DECREF", "Py_XDECREF", "Py_CLEAR"))) for x in arm[:-1])
+
+
 class _CPrep:
     def __init__(self, helper):
         self.helper = helper          # name -> function decl of the same translation unit (or None)
         self.depth = 0
+        self.rejections = []          # (line, condition text) of the argument rejections that were set aside
+        self.begun = False            # on the path being rewritten a loop or a helper that is not part of the C-API has run: arrays may have been written
+        self._pure, self._ident = {}, {}
 
     # -- statements -------------------------------------------------------------
-    def stmts(self, nodes):
+    def stmts(self, nodes, top=False):
+        """top: the statement list is the body of the function itself (an early `return <value>` there ends the function)"""
         out = []
-        for st in nodes:
+        nodes = list(nodes)
+        for pos, st in enumerate(nodes):
+            if isinstance(st, dict) and st.get("kind") == "IfStmt":
+                acc = []
+                sibling.find_calls(st["inner"][0], "PyArg_ParseTuple", acc)
+                if not acc and _c_is_rejection(st):
+                    if self.begun:
+                        raise NotImplementedError("the function can raise (line %s) after it has begun its work" % st.get("line"))
+                    # an argument rejection: `x = validated(arg)` embedded in the test is kept as the assignment it is on the
+                    # path that goes on; the test itself is set aside (recorded; the caller states it as an assumption)
+                    out.extend(self.embedded_assignments(st["inner"][0]))
+                    self.rejections.append((st.get("line"), cfront.render(st["inner"][0])[:120]))
+                    continue
+                inner = [c for c in st["inner"] if isinstance(c, dict) and c.get("kind")]
+                arm = _c_block(inner[1]) if len(inner) == 2 else []
+                if top and not acc and arm and arm[-1].get("kind") == "ReturnStmt" and arm[-1].get("inner") and not _c_is_null(arm[-1]["inner"][0]) \
+                        and not any(x.get("kind") == "ReturnStmt" for a in arm[:-1] for x in cfront.walk(a)) and not st.get("hasInit") and not st.get("hasVar"):
+                    # `if (c) { A; return value; } B`  ->  `if (c) { A } else { B }`
+                    b0 = self.begun
+                    first = self.stmts(arm[:-1])
+                    self.begun = b0               # the rest runs on the path that did not take the early return
+                    rest = self.stmts(nodes[pos + 1:], top=True)
+                    cond = copy.deepcopy(st["inner"][0])
+                    self.pure(cond)
+                    out.append({"kind": "IfStmt", "line": st.get("line"), "inner": [cond, _c_compound(first, st.get("line")), _c_compound(rest, st.get("line"))]})
+                    return out
+            if isinstance(st, dict) and (st.get("kind") in ("ForStmt", "WhileStmt", "DoStmt") or
+                                         (st.get("kind") == "CallExpr" and not (cfront.callee_name(st) or "Py").startswith(("Py", "_Py", "Npy", "npy_")))):
+                self.begun = True
+                if st.get("kind") != "CallExpr" and any(x.get("kind") == "ReturnStmt" for x in cfront.walk(st)):
+                    raise NotImplementedError("return from inside a loop (line %s)" % st.get("line"))
             out.extend(self.stmt(st))
+        return out
+
+    # -- helper functions that are expressions --------------------------------------
+    def pure_helper(self, name):
+        """(parameter names, parameter types, returned expression, return type) of a helper whose body is `return <expr>;`, else None"""
+        if name not in self._pure:
+            r = None
+            d = self.helper(name) if name and not name.startswith(("Py", "_Py", "Npy", "npy_")) else None
+            if d is not None:
+                body = [x for x in (cfront.body_of(d) or {}).get("inner", []) or [] if x.get("kind") != "NullStmt"]
+                if len(body) == 1 and body[0].get("kind") == "ReturnStmt" and body[0].get("inner") and not _c_has_side_effect(body[0]):
+                    ps = [c for c in d.get("inner", []) if c.get("kind") == "ParmVarDecl"]
+                    rt = (d.get("type", {}).get("qualType", "") or "").split("(")[0].strip()
+                    r = ([c.get("name", "") for c in ps], [c.get("type", {}).get("qualType", "") for c in ps], body[0]["inner"][0], rt)
+            self._pure[name] = r
+        return self._pure[name]
+
+    def pure(self, n, depth=0):
+        """in place: calls of expression helpers inside n are replaced by the returned expression (arguments and result converted to
+        the declared types)"""
+        if not isinstance(n, dict) or depth > 6:
+            return
+        kids = n.get("inner", []) or []
+        for i, ch in enumerate(kids):
+            if not isinstance(ch, dict):
+                continue
+            self.pure(ch, depth)
+            if ch.get("kind") == "CallExpr":
+                h = self.pure_helper(cfront.callee_name(ch))
+                args = ch["inner"][1:]
+                if h is None or len(h[0]) != len(args) or any(_c_has_side_effect(a) for a in args):
+                    continue
+                amap = {}
+                for p, pt, a in zip(h[0], h[1], args):
+                    at = a.get("type", {}).get("qualType", "")
+                    amap[p] = a if _c_unqual(at) == _c_unqual(pt) or "*" in pt else {"kind": "CStyleCastExpr", "type": {"qualType": _c_unqual(pt)}, "line": a.get("line"), "inner": [a]}
+                w = {"kind": "ParenExpr", "inner": [copy.deepcopy(h[2])]}
+                _c_subst_params(w, cfront.callee_name(ch), amap)
+                e = w["inner"][0]
+                if _c_unqual(e.get("type", {}).get("qualType", "")) != _c_unqual(h[3]) and "*" not in h[3] and h[3]:
+                    e = {"kind": "CStyleCastExpr", "type": {"qualType": _c_unqual(h[3])}, "line": ch.get("line"), "inner": [e]}
+                new = {"kind": "ParenExpr", "type": ch.get("type"), "line": ch.get("line"), "inner": [e]}
+                self.pure(new, depth + 1)
+                kids[i] = new
+
+    # -- helper functions that hand back one of their arguments, or NULL after raising ---------
+    def identity_helper(self, name):
+        """index of the parameter that the helper returns (possibly cast) whenever it does not return NULL, else None.  The helper
+        may only inspect its arguments: it stores through no pointer and calls nothing but the Python / numpy C-API."""
+        if name not in self._ident:
+            r = None
+            d = self.helper(name) if name and not name.startswith(("Py", "_Py", "Npy", "npy_")) else None
+            body = cfront.body_of(d) if d is not None else None
+            if body is not None:
+                ps = cfront.params_of(d)
+                defs = {}
+                clean = True
+                for x in cfront.walk(body):
+                    k = x.get("kind")
+                    if (k == "BinaryOperator" and x.get("opcode") == "=") or k == "CompoundAssignOperator":
+                        l = _cu(x["inner"][0])
+                        if l.get("kind") == "DeclRefExpr" and k == "BinaryOperator" and l.get("referencedDecl", {}).get("kind") != "ParmVarDecl":
+                            defs.setdefault(l["referencedDecl"].get("name"), []).append(x["inner"][1])
+                        else:
+                            clean = False
+                    elif k == "VarDecl" and x.get("name"):
+                        init = [c for c in x.get("inner", []) or [] if isinstance(c, dict) and c.get("kind")]
+                        if init:
+                            defs.setdefault(x["name"], []).append(init[-1])
+                    elif k == "UnaryOperator" and x.get("opcode") in ("++", "--"):
+                        clean = False
+                    elif k == "CallExpr" and not (cfront.callee_name(x) or "Py").startswith(("Py", "_Py", "Npy", "npy_")):
+                        clean = False
+
+                def src(e, seen=()):
+                    u = _c_strip_casts(e)
+                    if _c_is_null(e):
+                        return {"null"}
+                    if isinstance(u, dict) and u.get("kind") == "DeclRefExpr":
+                        nm = u.get("referencedDecl", {}).get("name")
+                        if u.get("referencedDecl", {}).get("kind") == "ParmVarDecl":
+                            return {nm}
+                        if nm in defs and nm not in seen:
+                            out = set()
+                            for d_ in defs[nm]:
+                                out |= src(d_, seen + (nm,))
+                            return out
+                    return {"?"}
+                rets = set()
+                for x in cfront.walk(body):
+                    if x.get("kind") == "ReturnStmt":
+                        rets |= src(x["inner"][0]) if x.get("inner") else {"?"}
+                got = rets - {"null"}
+                if clean and len(got) == 1 and next(iter(got)) in ps:
+                    r = ps.index(next(iter(got)))
+            self._ident[name] = r
+        return self._ident[name]
+
+    def as_identity(self, st):
+        """`x = validated(..., arg, ...)`  ->  `x = (T) arg` (the value on the path where the helper did not raise), else None"""
+        if not (isinstance(st, dict) and st.get("kind") == "BinaryOperator" and st.get("opcode") == "=" and _cu(st["inner"][0]).get("kind") == "DeclRefExpr"):
+            return None
+        c = _c_strip_casts(st["inner"][1])
+        if not (isinstance(c, dict) and c.get("kind") == "CallExpr"):
+            return None
+        k = self.identity_helper(cfront.callee_name(c))
+        if k is None or k + 1 >= len(c["inner"]):
+            return None
+        ty = _cu(st["inner"][0]).get("type", {}).get("qualType", "")
+        return dict(st, inner=[st["inner"][0], {"kind": "CStyleCastExpr", "type": {"qualType": ty}, "line": st.get("line"), "inner": [copy.deepcopy(c["inner"][k + 1])]}])
+
+    def embedded_assignments(self, cond):
+        out = []
+        for x in cfront.walk(cond):
+            a = self.as_identity(x)
+            if a is not None:
+                out.append(a)
         return out
 
     def stmt(self, st):
         k = st.get("kind")
         if k == "CompoundStmt":
             return self.stmts(st.get("inner", []) or [])
+        if k not in ("IfStmt", "ForStmt", "WhileStmt", "DoStmt", "SwitchStmt"):
+            self.pure(st)
+        if k == "DeclStmt":
+            for v in st.get("inner", []) or []:
+                if v.get("kind") == "VarDecl" and isinstance(v.get("type"), dict):
+                    v["type"] = dict(v["type"], qualType=_c_unqual(v["type"].get("qualType", "")))
+            return [st]
+        a = self.as_identity(st)
+        if a is not None:
+            return [a]
         if k == "BinaryOperator" and st.get("opcode") == ",":
             return self.stmts(_c_split_comma(st))
         if k == "CompoundAssignOperator":
@@ -188,17 +411,23 @@ class _CPrep:
             sibling.find_calls(inner[0], "PyArg_ParseTuple", acc)
             if acc or st.get("hasInit") or st.get("hasVar"):
                 return [st]
+            self.pure(st)
+            b0 = self.begun
             new = [inner[0], _c_compound(self.stmts(_c_block(inner[1])), st.get("line"))]
+            b1, self.begun = self.begun, b0
             if len(inner) > 2 and inner[2].get("kind"):
                 new.append(_c_compound(self.stmts(_c_block(inner[2])), st.get("line")))
+            self.begun = self.begun or b1
             return [dict(st, inner=new)]
         if k == "ForStmt":
+            self.pure(st)
             init, _, test, inc, body = st["inner"]
             if not (isinstance(test, dict) and test.get("kind")):
                 raise NotImplementedError("for without a condition")
             b = _c_elim_continue(self.stmts(_c_block(body))) + self.stmts(_c_split_comma(inc))
             return self.stmts(_c_split_comma(init)) + [{"kind": "WhileStmt", "line": st.get("line"), "inner": [test, _c_compound(b, st.get("line"))]}]
         if k == "WhileStmt":
+            self.pure(st)
             # `continue` skips the rest of the body, which is all an `if (!c) { rest }` does
             return [dict(st, inner=[st["inner"][0], _c_compound(_c_elim_continue(self.stmts(_c_block(st["inner"][1]))), st.get("line"))])]
         if k == "CallExpr":
@@ -222,24 +451,7 @@ class _CPrep:
         body = copy.deepcopy(cfront.body_of(d))
         if len(params) != len(args) or set(params) & _c_assigned(body):
             raise NotImplementedError("helper %s assigns its parameters" % name)
-        amap = dict(zip(params, args))
-        locs = {x["name"] for x in cfront.walk(body) if x.get("kind") == "VarDecl" and x.get("name")}
-
-        def rewrite(n):
-            if not isinstance(n, dict):
-                return
-            for i, ch in enumerate(n.get("inner", []) or []):
-                if isinstance(ch, dict) and ch.get("kind") == "DeclRefExpr":
-                    nm = ch.get("referencedDecl", {}).get("name")
-                    if ch.get("referencedDecl", {}).get("kind") == "ParmVarDecl" and nm in amap:
-                        n["inner"][i] = {"kind": "ParenExpr", "type": ch.get("type"), "line": ch.get("line"), "inner": [copy.deepcopy(amap[nm])]}
-                        continue
-                    if nm in locs:
-                        ch["referencedDecl"] = dict(ch["referencedDecl"], name="%s__%s" % (name, nm))
-                if isinstance(ch, dict) and ch.get("kind") == "VarDecl" and ch.get("name") in locs:
-                    ch["name"] = "%s__%s" % (name, ch["name"])
-                rewrite(ch)
-        rewrite(body)
+        _c_subst_params(body, name, dict(zip(params, args)))
         inner = list(body.get("inner", []) or [])
         if inner and inner[-1].get("kind") == "ReturnStmt" and not inner[-1].get("inner"):
             inner = inner[:-1]
@@ -690,10 +902,15 @@ class _CPtr:
         if k == "DeclStmt":
             out = [st]
             for v in st.get("inner", []) or []:
-                if v.get("kind") == "VarDecl" and v.get("name") in self.pvar:
-                    init = [c for c in v.get("inner", []) or [] if isinstance(c, dict) and c.get("kind")]
+                if v.get("kind") != "VarDecl":
+                    continue
+                init = [j for j, c in enumerate(v.get("inner", []) or []) if isinstance(c, dict) and c.get("kind")]
+                if v.get("name") in self.pvar:
                     if init:
-                        out.extend(self.define(v["name"], init[-1], v.get("line", ln)))
+                        out.extend(self.define(v["name"], v["inner"][init[-1]], v.get("line", ln)))
+                elif init and v.get("name") not in self.ptrs and v.get("name") not in self.stride and self.types.get(v.get("name")) not in _C_OBJ_TYPES:
+                    # a scalar declared where it is first used: its initialiser is an expression like any other
+                    v["inner"][init[-1]] = self.rw(v["inner"][init[-1]])
             return out
         if k == "BinaryOperator" and st.get("opcode") == "=":
             lhs = _cu(st["inner"][0])
@@ -835,6 +1052,7 @@ def _c_hoist_counters(stmts):
 
 _c_helper_cache = {}
 ASSUMED = []
+REJECTIONS = []
 
 
 def _c_helper_loader(tu):
@@ -858,7 +1076,10 @@ def _c_helper_loader(tu):
 def _c_pointer_model(d, tu):
     """(statements of the function after the statement level desugaring, pointer typing of its locals); d is modified"""
     body = cfront.body_of(d)
-    stmts = _CPrep(_c_helper_loader(tu)).stmts(body.get("inner", []) or [])
+    prep = _CPrep(_c_helper_loader(tu))
+    stmts = prep.stmts(body.get("inner", []) or [], top=True)
+    del REJECTIONS[:]
+    REJECTIONS.extend(prep.rejections)
     try:
         objs = [n for n in sibling.c_roles(d)]
     except AnalysisError:
@@ -879,6 +1100,9 @@ def c_prepare(decl, tu="chist"):
     d = copy.deepcopy(decl)
     body = cfront.body_of(d)
     stmts, cp = _c_pointer_model(d, tu)
+    if REJECTIONS:
+        ASSUMED.append("the argument checks of the C engine (it raises when %s) do not fire for the arrays the wrapper hands to it; the engines are compared on the calls "
+                       "the C engine accepts" % "; ".join("`%s` at line %s" % (c, l) for l, c in REJECTIONS))
     stmts, used = cp.run()
     if used:
         stmts = _c_hoist_counters(stmts)
@@ -1370,10 +1594,101 @@ class Eff:
         return (self.loops, tuple(sorted(self.g)), self.kind + ("(x%d)" % self.n if self.n > 1 else ""), self.a, self.i, self.v)
 
 
+# ---- elements that an engine reads back from an array it has filled itself ---------------------------------------------
+# The reduction treats the arrays as inputs: rd(A, i) is "the element the caller put there".  That is wrong for an array the
+# engine stores into, except for the read-modify-write of one cell (hist[b] = hist[b] + 1, the same in both engines).  One
+# more case is resolved: a *copy loop*  `for k in [0, n): A[c + k] = V(k)`  that has finished before a later loop over the same
+# range reads A[c + k]: the read is V(k), provided no other store of the engine can touch the copied region -- shown by
+# adding up the conditions under which that store happens (loop conditions, guards: all of the form d >= 0) to
+# `index <= c - 1`.  Anything else that reads what the engine stored gets no verdict.
+def _rd_atoms(e):
+    return [x for x in e.atoms(sp.core.function.AppliedUndef) if x.func.__name__ == "rd"] if isinstance(e, sp.Basic) else []
+
+
+def _eff_terms(eff):
+    loops, g, kind, a, i, v = eff
+    return [c for _, _, c in loops] + list(g) + [x for x in (i, v) if isinstance(x, sp.Basic)]
+
+
+def _nonneg_facts(r, eff):
+    """expressions known to be >= 0 whenever the effect happens"""
+    loops, g, kind, a, i, v = eff
+    out = [sp.Symbol("k%d" % lid, integer=True) for _, lid, _ in loops]
+    conds = []
+    for _, _, c in loops:
+        conds += list(c.args) if isinstance(c, sp.And) else [c]
+    for c in conds + r.atoms(list(g)):
+        try:
+            c = nf(sp.logic.boolalg.to_nnf(c, simplify=False) if getattr(c, "is_Boolean", False) and not getattr(c, "is_Relational", False) else c)
+        except Exception:
+            continue
+        if isinstance(c, sp.Ge) and c.rhs == 0:
+            out.append(c.lhs)
+    return out
+
+
+def _provably_nonneg(d, facts):
+    import itertools
+    d = sp.expand(d)
+    facts = facts[:8]
+    for n in range(len(facts) + 1):
+        for sub in itertools.combinations(facts, n):
+            rest = sp.expand(d - sum(sub))
+            if rest.is_Integer and rest >= 0:
+                return True
+    return False
+
+
+def _forward_copies(r):
+    effs = list(r.effects)
+    stored = {e[3] for e in effs if e[2] == "store"}
+    for si, S in enumerate(effs):
+        loops, g, kind, arr, idx, val = S
+        if kind != "store" or len(loops) != 1 or not isinstance(idx, sp.Basic) or not isinstance(val, sp.Basic):
+            continue
+        lidA, condA = loops[0][1], loops[0][2]
+        kA = sp.Symbol("k%d" % lidA, integer=True)
+        c0 = sp.expand(idx - kA)
+        inv = lambda e: all(str(x).startswith("P") for x in e.free_symbols)
+        if not inv(c0) or _rd_atoms(c0) or any(a.args[0] in stored for a in _rd_atoms(val)) or not all(inv(x) for x in g if isinstance(x, sp.Basic)):
+            continue
+        gS = {str(nf(x)) for x in r.atoms(list(g))}
+        # no other store of the engine reaches the copied region A[c0 ...]
+        others = [T for ti, T in enumerate(effs) if ti != si and T[2] == "store" and T[3] == arr]
+        if not all(isinstance(T[4], sp.Basic) and _provably_nonneg(c0 - T[4] - 1, _nonneg_facts(r, T)) for T in others):
+            continue
+        for ei, E in enumerate(effs):
+            if ei == si or not E[0]:
+                continue
+            lidB, condB = E[0][0][1], E[0][0][2]
+            kB = sp.Symbol("k%d" % lidB, integer=True)
+            target = sp.Function("rd")(arr, kB + c0)
+            if lidB <= lidA or not any(target in _rd_atoms(t) for t in _eff_terms(E)):
+                continue
+            k = sp.Symbol("k", integer=True)
+            try:
+                same_range = str(nf(condA.xreplace({kA: k}))) == str(nf(condB.xreplace({kB: k})))
+            except Exception:
+                same_range = False
+            if not same_range or not gS <= {str(nf(x)) for x in r.atoms(list(E[1]))}:
+                continue
+            m = {target: val.xreplace({kA: kB})}
+            sub = lambda e: e.xreplace(m) if isinstance(e, sp.Basic) else e
+            effs[ei] = (tuple((t, lid, sub(c)) for t, lid, c in E[0]), frozenset(sub(x) for x in E[1]), E[2], E[3], sub(E[4]), sub(E[5]))
+    r.effects = effs
+    # what is left
+    for loops, g, kind, a, i, v in effs:
+        for t in _eff_terms((loops, g, kind, a, i, v)):
+            for x in _rd_atoms(t):
+                if x.args[0] in stored and not (kind == "store" and a == x.args[0] and isinstance(i, sp.Basic) and sp.expand(i - x.args[1]) == 0):
+                    raise AnalysisError("an engine reads back an element of an array it stores into (%s): the arrays are modelled as inputs, so there is no verdict on this form" % x)
+
+
 def engine_effects(ir, roles):
     """(list of Eff, {state name: initial value text}) of one engine"""
     r = _Red(roles)
     r.run(ir, {}, [], [])
+    _forward_copies(r)
     depth, cond = {}, {}
     for loops, g, kind, a, i, v in r.effects:
         for d, (_, lid, c) in enumerate(loops):
@@ -1566,17 +1881,26 @@ def engines(chk, repo, py, cfn):
     chk.ob("R05.2", "engine::every-sorted-index-stored-at-its-offset", ok, w, "rev[i + nbin + 1] = s[i] for every i (value order, ties in original order) when reverse indices are requested")
     # loop-carried state: the last occupied bin, and the end of the counted data
     st = {e.a: e for e in EA if e.kind == "state"}
-    binst = [a for a, e in st.items() if e.loops == (MAIN,) and e.v == _pw(sp.Piecewise((BINe, counted), (sp.Symbol(a), True)))]
+    # (the variable may hold the last occupied bin itself, starting at -1, or a cursor at a fixed distance from it -- the first bin
+    # whose offset is still to be set, last + 1, starting at 0: SHIFT is that distance, the bin meant is always variable - SHIFT)
+    binst, SHIFT = [], 0
+    for c in (0, 1, -1, 2):
+        got = [a for a, e in st.items() if e.loops == (MAIN,) and e.v == _pw(sp.Piecewise((BINe + c, counted), (sp.Symbol(a), True)))]
+        if got:
+            binst, SHIFT = got, c
+            break
     endst = [a for a, e in st.items() if e.loops == (MAIN,) and e.v == _pw(sp.Piecewise((K0 + size(P4) + 2, counted), (sp.Symbol(a), True)))]
-    chk.ob("R05.2", "engine::state::last-occupied-bin", len(binst) == 1, w, "the last occupied bin is updated to b exactly when a datum is counted (%s)" % sorted((a, e.v) for a, e in st.items()))
-    SB = sp.Symbol(binst[0]) if len(binst) == 1 else sp.Symbol("T?")
+    ok = len(binst) == 1 and ia.get(binst[0]) == str(nf(sp.Integer(SHIFT - 1)))
+    chk.ob("R05.2", "engine::state::last-occupied-bin", ok, w, "the last occupied bin (no bin, -1, before the pass) is updated to b exactly when a datum is counted (%s; initial values %s)"
+           % (sorted((a, e.v) for a, e in st.items()), ia))
+    SB = (sp.Symbol(binst[0]) if len(binst) == 1 else sp.Symbol("T?")) - SHIFT
     fills = [e for e in revs if e.v == OFF and len(e.loops) == 2]
     # (the guard `previous bin < b` is the entry condition of the inner loop below: implied, and dropped from the effect)
     ok = len(fills) == 1 and fills[0].i == str(nf(SB + K1 + 1)) and fills[0].loops == (MAIN, str(nf(SB + K1 + 1 <= BINe)))
     chk.ob("R05.2", "engine::bin-offsets-filled-up-to-current-bin", ok, w, "when a datum opens bin b, rev[t] = offset for every t in (previous bin, b] (empty bins in between get the same offset)")
     chk.ob("R05.2", "engine::effect-count", len(revs) == 3, w, "three kinds of stores into the reverse-index array (index, bin offset, tail)")
     # the offsets of the bins past the last occupied one
-    SBf = sp.Symbol(str(SB) + "_final")
+    SBf = sp.Symbol((binst[0] if len(binst) == 1 else "T?") + "_final") - SHIFT
     outside = [e for e in revs if not (e.loops and e.loops[0] == MAIN)]
     cands = [e for e in outside if len(e.loops) == 1 and e.i == str(nf(SBf + K0 + 1))]           # fills starting right after the last occupied bin
     tails = [e for e in cands if e.loops[0] == str(nf(SBf + K0 + 1 <= size(P4)))]
@@ -1801,6 +2125,13 @@ class _PathEx:
     def decide(self, t, st):
         return eval_test(t, {}, st.known)
 
+    def is_dict(self, fi):
+        """the method belongs to a class that derives from the builtin dict and defines neither update nor __setitem__"""
+        c = fi.module.classes.get(fi.cls) if fi.cls else None
+        if c is None or not any(isinstance(b, ast.Name) and b.id == "dict" for b in c.bases):
+            return False
+        return not any(isinstance(x, ast.FunctionDef) and x.name in ("update", "__setitem__") for x in c.body)
+
     # -- statements ------------------------------------------------------------
     def stmt(self, fi, s, st, done, depth):
         if isinstance(s, ast.Expr):
@@ -1808,6 +2139,11 @@ class _PathEx:
             if isinstance(v, ast.Call) and depth > 0 and self.callee(fi, v) is not None:
                 return [n for n, _ in self.inline(fi, v, st, done, depth)]
             self.note_calls(v, st)
+            if isinstance(v, ast.Call) and norm(v.func) == "self.update" and self.is_dict(fi) and not v.args and v.keywords and all(k.arg for k in v.keywords):
+                # dict.update(key=value, ...) on an instance of a dict subclass that does not override it: the item stores, in order
+                vals = [(k.arg, _sub(k.value, st.env)) for k in v.keywords]
+                for k, val in vals:
+                    st.env["self[%r]" % k] = val
             return [st]
         if isinstance(s, (ast.Assign, ast.AnnAssign)):
             if s.value is None:
@@ -2023,15 +2359,70 @@ def _is_name(e, name):
     return isinstance(e, ast.Name) and e.id == name
 
 
+# ---- the private methods of Binner, found by what they do ------------------------------
+# The public surface (histogram, Binner.dohist, Binner.__init__, the module function _dohist that is the Python engine, the
+# compiled _chist.chist) and the dict keys / attributes the class publishes ('wsort', 'hist', 'rev', sort_index, dmin, dmax)
+# are the handles; the names of the private methods in between are not part of any contract.  A role is given to the one
+# method that does what the role is about; when that is not unique the name the method has in the reviewed tree is used.
+_ROLE_NAMES = {"engine": "_do_hist", "limits": "_get_minmax_and_indices", "equal": "_hist_by_binsize_or_nbin", "bynum": "_hist_by_num",
+               "sortidx": "_get_sort_index", "merge": "_merge_last"}
+_role_cache = {}
+
+
+def _stores(fi, key):
+    for x in walk_no_nested(fi.node):
+        tg = x.targets if isinstance(x, ast.Assign) else [x.target] if isinstance(x, (ast.AugAssign, ast.AnnAssign)) else []
+        for t in tg:
+            if any(isinstance(tt, (ast.Attribute, ast.Subscript)) and norm(tt) == key for tt in rules._flat_targets(t)):
+                return True
+    return False
+
+
+def _self_calls(fi, name):
+    return [x for x in walk_no_nested(fi.node) if isinstance(x, ast.Call) and norm(x.func) == "self." + name]
+
+
+def method(repo, role):
+    """FuncInfo of the Binner method that plays `role` (see above)"""
+    key = (id(repo), role)
+    if key in _role_cache:
+        return _role_cache[key]
+    mod = repo.funcs.get(ST + "Binner.dohist")
+    ms = [fi for fi in repo.funcs.values() if fi.cls == "Binner" and mod is not None and fi.module is mod.module]
+    priv = [fi for fi in ms if fi.name.startswith("_") and not fi.name.startswith("__")]
+    found = []
+    if role == "engine":
+        found = [fi for fi in priv if any(isinstance(x, ast.Call) and ((dotted_name(x.func) or "").endswith(".chist") or call_name(x) == "_dohist") for x in walk_no_nested(fi.node))]
+    elif role == "limits":
+        found = [fi for fi in priv if _stores(fi, "self['wsort']")]
+    elif role == "sortidx":
+        found = [fi for fi in priv if _stores(fi, "self.sort_index")]
+    elif role in ("equal", "bynum"):
+        eng = method(repo, "engine")
+        want = "binsize" if role == "equal" else "nperbin"
+        for fi in priv:
+            if fi is eng or not _self_calls(fi, eng.name) or mod is None:
+                continue
+            sites = _self_calls(mod, fi.name)
+            if sites and all(any(_is_name(a, want) for a in list(c.args) + [k.value for k in c.keywords]) for c in sites):
+                found.append(fi)
+    elif role == "merge":
+        bn = method(repo, "bynum")
+        found = [fi for fi in priv if fi is not bn and _self_calls(bn, fi.name) and _stores(fi, "self['rev']")]
+    r = found[0] if len(found) == 1 else repo.func(ST + "Binner." + _ROLE_NAMES[role])
+    _role_cache[key] = r
+    return r
+
+
 # ---- R05.3 --------------------------------------------------------------------
 def abi(chk, repo, cfn):
     fmt, names = parse_tuple_binding(cfn)
     units = parse_tuple_format(fmt or "")
     chk.ob("R05.3", "chist::parse-format", units == ["O", "d", "O", "d", "O", "O"] and len(names) == 6, "esutil/stat/chist_pywrap.c", "PyArg_ParseTuple format %r binds %s" % (fmt, names))
-    dh = repo.func(ST + "Binner._do_hist")
+    dh = method(repo, "engine")
     pe = repo.func(ST + "_dohist")
     chk.analysed_unit(dh.qualname)
-    paths = _paths(repo, dh, opaque=("_dohist",))
+    paths = _paths(repo, dh, opaque=(pe.name,))
     want = dh.params[1:5]                      # data, dmin, sortind, bsize: the values _do_hist was given
     nbin_p = dh.params[5] if len(dh.params) > 5 else None
     v_c, v_p, v_buf, v_size = [], [], [], []
@@ -2109,10 +2500,17 @@ def abi(chk, repo, cfn):
         else:
             vs.append(None)
     chk.ob("R05.3", "Binner.__init__::data-is-float64", _verdict(vs), init.where(), "the binned data are converted to float64 (matches the C double read): %s" % sorted(seen_x))
-    si = repo.func(ST + "Binner._get_sort_index")
+    si = method(repo, "sortidx")
+    # every argsort that can produce the sort index: the calls in the values that reach the cell on some path (helpers followed,
+    # their parameters replaced by what they are called with), and the calls written in the method itself
     srt = [x for x in walk_no_nested(si.node) if isinstance(x, ast.Call) and call_name(x) == "argsort"]
-    ok = len(srt) == 1 and _stable_argsort(srt[0])
-    chk.ob("R05.4", "Binner._get_sort_index::stable-argsort", ok, si.where(), "the sort index is a stable argsort of the data (ties keep original order)")
+    for st in _paths(repo, si) or []:
+        v = st.env.get("self.sort_index") if st.outcome != "raise" else None
+        if v is not None:
+            srt += [x for x in ast.walk(v) if isinstance(x, ast.Call) and call_name(x) == "argsort" and norm(x) not in {norm(y) for y in srt}]
+    # held: there is one and every one is a stable argsort of the data; violated: one of them is not; none found: not recognised
+    ok = (all(_stable_argsort(x) for x in srt) and True) if srt else None
+    chk.ob("R05.4", "Binner._get_sort_index::stable-argsort", ok, si.where(), "the sort index is a stable argsort of the data (ties keep original order): %s" % sorted({norm(x) for x in srt}))
     sort_index_values(chk, repo, si)
     # the two callers of _do_hist pass float64 data and an int64 sort index
     engine_callers(chk, repo, dh)
@@ -2415,7 +2813,7 @@ def layout(chk, repo, cfn, names, units, dh, pe, c_bindings):
 
     def paths_of(fi):
         if fi.qualname not in pcache:
-            pcache[fi.qualname] = _paths(repo, fi, opaque=(dh.name, pe.name, "_merge_last"))
+            pcache[fi.qualname] = _paths(repo, fi, opaque=(dh.name, pe.name, _merge_name(repo)))
         return pcache[fi.qualname]
     busy = set()
 
@@ -2582,9 +2980,9 @@ DERIVE_BSIZE = ("float(self.dmax - self.dmin) / _N", "(self.dmax - self.dmin) / 
 
 def engine_callers(chk, repo, dh):
     # ---- the binsize / nbin histogram -------------------------------------------------
-    fi = repo.func(ST + "Binner._hist_by_binsize_or_nbin")
+    fi = method(repo, "equal")
     chk.analysed_unit(fi.qualname)
-    paths = _paths(repo, fi, opaque=("_do_hist", "_dohist"))
+    paths = _paths(repo, fi, opaque=(dh.name, "_dohist"))
     bs_p, nb_p = fi.params[1], fi.params[2]
     v_args, v_nbin, v_bsize, v_store = [], [], [], []
     shown = {}
@@ -2626,9 +3024,9 @@ def engine_callers(chk, repo, dh):
     chk.ob("R05.5", "derive::binsize-from-nbin", _verdict(v_bsize), fi.where(), "binsize = (max-min)/nbin: %s" % (shown,))
     chk.ob("R05.5", "derive::results-stored", _verdict(v_store), fi.where(), "hist / rev / binsize / nbin are stored as computed")
     # ---- the equal-occupancy histogram ---------------------------------------------------
-    fi = repo.func(ST + "Binner._hist_by_num")
+    fi = method(repo, "bynum")
     chk.analysed_unit(fi.qualname)
-    paths = _paths(repo, fi, opaque=("_do_hist", "_dohist", "_merge_last"))
+    paths = _paths(repo, fi, opaque=(dh.name, "_dohist", _merge_name(repo)))
     vs = []
     for st in paths or []:
         if st.outcome == "raise":
@@ -2656,6 +3054,13 @@ def engine_callers(chk, repo, dh):
         chk.ob("R05.3", "_hist_by_num::engine-arguments", True, fi.where(), "the equal-occupancy histogram does not go through the histogram engines: no value reaches them from here", nontrivial=False)
     else:
         chk.ob("R05.3", "_hist_by_num::engine-arguments", _verdict(vs), fi.where(), "engine called with (float64 positions 0..n-1, 0, the positions, float(nperbin), nbin, True)")
+
+
+def _merge_name(repo):
+    try:
+        return method(repo, "merge").name
+    except AnalysisError:
+        return _ROLE_NAMES["merge"]
 
 
 def _derive_contra(e):
@@ -2730,21 +3135,43 @@ def _selection(sel):
 
 
 def _searchsorted(e, s):
-    """(bound, side) of X.searchsorted(b, side=...) / np.searchsorted(X, b, side=...) over the sorted data X, else None"""
+    """(bound, side) of a binary search for a bound in the data in sorted order, else None:  X.searchsorted(b, side=...) /
+    np.searchsorted(X, b, side=...) over the gathered data X = self.x[S], or self.x.searchsorted(b, side=..., sorter=S) /
+    np.searchsorted(self.x, b, side=..., sorter=S) over the data with the sort index S as sorter"""
     if not (isinstance(e, ast.Call) and call_name(e) == "searchsorted" and isinstance(e.func, ast.Attribute)):
+        return None
+    if any(k.arg not in ("side", "sorter", "v", "a") for k in e.keywords):
         return None
     args = list(e.args)
     if norm(e.func.value) in ("np", "numpy"):
-        if not args or not _sorted_data(args[0], s):
-            return None
+        arr = args[0] if args else kwarg(e, "a")
         args = args[1:]
-    elif not _sorted_data(e.func.value, s):
-        return None
-    if not args:
-        return None
+    else:
+        arr = e.func.value
+    bound = args[0] if args else kwarg(e, "v")
     side = kwarg(e, "side") or (args[1] if len(args) > 1 else None)
+    sorter = kwarg(e, "sorter") or (args[2] if len(args) > 2 else None)
+    if arr is None or bound is None or len(args) > 3:
+        return None
+    if sorter is not None:
+        if not (norm(arr) == "self.x" and pat.same(sorter, s)):
+            return None
+    elif not _sorted_data(arr, s):
+        return None
     side = const_value(side) if side is not None else "left"
-    return (args[0], side) if side in ("left", "right") else None
+    return (bound, side) if side in ("left", "right") else None
+
+
+def _uncopied(e):
+    """the array behind calls that only copy it: X.copy() / np.copy(X) / np.array(X) / np.ascontiguousarray(X)"""
+    while isinstance(e, ast.Call) and isinstance(e.func, ast.Attribute) and not e.keywords:
+        if e.func.attr == "copy" and not e.args and norm(e.func.value) not in _NP:
+            e = e.func.value
+        elif e.func.attr in ("copy", "array", "ascontiguousarray") and norm(e.func.value) in _NP and len(e.args) == 1:
+            e = e.args[0]
+        else:
+            break
+    return e
 
 
 # ---- every value that becomes the sort index is the stable ascending order ---------------------------------
@@ -2856,6 +3283,165 @@ def _order_fact(t, truth):
     return _MONO_NEG[k] if not truth else None
 
 
+def _order_facts(t, truth):
+    """the facts about the order of the data that a branch condition with the given outcome establishes: a conjunction that
+    held (a disjunction that did not) establishes what each of its operands does"""
+    while isinstance(t, ast.UnaryOp) and isinstance(t.op, ast.Not):
+        t, truth = t.operand, not truth
+    if isinstance(t, ast.Call) and call_name(t) == "bool" and isinstance(t.func, ast.Name) and len(t.args) == 1 and not t.keywords:
+        return _order_facts(t.args[0], truth)
+    if isinstance(t, ast.BoolOp):
+        if isinstance(t.op, ast.And) is truth:
+            out = set()
+            for v in t.values:
+                out |= _order_facts(v, truth)
+            return out
+        return set()
+    f = _order_fact(t, truth)
+    return {f} if f else set()
+
+
+def _path_order_facts(st):
+    out = set()
+    for t, truth in st.conds:
+        out |= _order_facts(t, truth)
+    return out
+
+
+class _CanonSort(ast.NodeTransformer):
+    """every expression that is the stable sort index of the data on this path -- the stable argsort itself, or positions 0..n-1
+    (n-1..0) on a path whose conditions make the data non-decreasing (strictly decreasing) -- is spelled as the cell that caches
+    it, `self.sort_index`;  (a, b)[k] with a literal k is the element"""
+
+    def __init__(self, facts):
+        self.facts = facts
+
+    def generic_visit(self, n):
+        if isinstance(n, ast.expr):
+            if _stable_argsort(n):
+                return ast.parse("self.sort_index", mode="eval").body
+            o = _position_order(n) if isinstance(n, (ast.Call, ast.Subscript)) else None
+            if (o == "id" and self.facts & {"inc", "sinc"}) or (o == "rev" and "sdec" in self.facts):
+                return ast.parse("self.sort_index", mode="eval").body
+        n = ast.NodeTransformer.generic_visit(self, n)
+        if isinstance(n, ast.Subscript) and isinstance(n.value, ast.Tuple) and isinstance(n.slice, ast.Constant) and isinstance(n.slice.value, int) \
+                and not isinstance(n.slice.value, bool) and -len(n.value.elts) <= n.slice.value < len(n.value.elts) and not any(isinstance(e, ast.Starred) for e in n.value.elts):
+            return n.value.elts[n.slice.value]
+        return n
+
+
+def _canon_sort(e, facts):
+    return None if e is None else _CanonSort(facts).visit(copy.deepcopy(e))
+
+
+def cell_invariants(repo, fi):
+    """{'self.<attr>': expression} for the instance attributes of fi's class that, whenever they are not None, hold one and the same
+    function of the binned data: every method that assigns the attribute leaves (on every path, raising ones included) either
+    None or a value that reads nothing but self.x and its stable sort index, and the values agree.  self.x itself must be
+    assigned by the constructor only."""
+    ms = [g for g in repo.funcs.values() if g.module is fi.module and g.cls == fi.cls]
+    stores = {}
+    for g in ms:
+        for x in walk_no_nested(g.node):
+            tg = x.targets if isinstance(x, ast.Assign) else [x.target] if isinstance(x, (ast.AugAssign, ast.AnnAssign)) else [x.target] if isinstance(x, (ast.For,)) else []
+            for t in tg:
+                for tt in rules._flat_targets(t):
+                    if isinstance(tt, ast.Attribute) and norm(tt.value) == "self":
+                        stores.setdefault(norm(tt), set()).add(g.qualname)
+                    elif isinstance(tt, (ast.Subscript, ast.Attribute)) and isinstance(tt.value, ast.Attribute) and norm(tt.value.value) == "self":
+                        stores.setdefault(norm(tt.value), set()).add("<element store>")
+    if any(not q.endswith(".__init__") for q in stores.get("self.x", ())):
+        return {}
+    out = {}
+    for cell, owners in stores.items():
+        if cell in ("self.x", "self.sort_index") or "<element store>" in owners:
+            continue
+        vals, ok = {}, True
+        for q in sorted(owners):
+            ps = _paths(repo, repo.funcs[q])
+            if ps is None:
+                ok = False
+                break
+            for st in ps:
+                v = st.env.get(cell)
+                if v is None or _is_none(v):
+                    continue
+                v = _canon_sort(v, _path_order_facts(st))
+                reads = {norm(x) for x in ast.walk(v) if isinstance(x, ast.Attribute) and norm(x).startswith("self.")}
+                names = {x.id for x in ast.walk(v) if isinstance(x, ast.Name)} - {"self", "np", "numpy"}
+                if names or not reads <= {"self.x", "self.sort_index"} or any(isinstance(x, (ast.Call, ast.Lambda)) for x in ast.walk(v)):
+                    ok = False
+                vals[norm(v)] = v
+        if ok and len(vals) == 1:
+            out[cell] = next(iter(vals.values()))
+    return out
+
+
+class _CellSub(ast.NodeTransformer):
+    def __init__(self, inv):
+        self.inv = inv
+
+    def visit_Attribute(self, n):
+        if isinstance(n.ctx, ast.Load) and norm(n) in self.inv:
+            return copy.deepcopy(self.inv[norm(n)])
+        return self.generic_visit(n)
+
+
+def canonical_path(st, inv):
+    """copy of a finished path with the values and branch conditions in canonical spelling (_CanonSort); an attribute read that the
+    path did not assign itself, that the path knows not to be None and that has a class invariant (cell_invariants) is replaced
+    by that invariant first"""
+    facts = _path_order_facts(st)
+    use = {c: e for c, e in inv.items() if st.known.get("%s is None" % c) is False or st.known.get("%s is not None" % c) is True}
+
+    def cv(e):
+        if e is None:
+            return None
+        if use:
+            e = _CellSub(use).visit(copy.deepcopy(e))
+        return _canon_sort(e, facts)
+    n = st.fork()
+    n.outcome, n.ret = st.outcome, cv(st.ret)
+    n.env = {k: cv(v) for k, v in st.env.items()}
+    own = {"%s is None" % c for c in use} | {"%s is not None" % c for c in use}
+    n.conds = [(t if norm(t) in own else cv(t), truth) for t, truth in st.conds]
+    return n
+
+
+def _truths(t, truth):
+    """the elementary conditions (expression, outcome) that a branch condition with the given outcome establishes"""
+    while isinstance(t, ast.UnaryOp) and isinstance(t.op, ast.Not):
+        t, truth = t.operand, not truth
+    if isinstance(t, ast.Call) and isinstance(t.func, ast.Name) and t.func.id == "bool" and len(t.args) == 1 and not t.keywords:
+        return _truths(t.args[0], truth)
+    if isinstance(t, ast.BoolOp):
+        if isinstance(t.op, ast.And) is truth:
+            return [x for v in t.values for x in _truths(v, truth)]
+        return []
+    return [(t, truth)]
+
+
+def _vacuous_limits(st, flags, lo_p, hi_p):
+    """the sides ('lo' / 'hi') whose given limit this path knows to remove nothing: a branch condition that held says
+    limit <= smallest datum (largest datum <= limit).  Only the comparison as written counts, not the negation of its
+    opposite (that one also holds for a NaN limit, which selects nothing)."""
+    out = set()
+    for t, truth in st.conds:
+        for c, tr in _truths(_simp(t, flags), truth):
+            if not (tr and isinstance(c, ast.Compare) and len(c.ops) == 1):
+                continue
+            a, b, op = c.left, c.comparators[0], type(c.ops[0])
+            if op in (ast.GtE, ast.Gt):
+                a, b = b, a
+            elif op not in (ast.LtE, ast.Lt):
+                continue
+            if _is_name(a, lo_p) and _data_extreme(b) == "min":
+                out.add("lo")
+            if _is_name(b, hi_p) and _data_extreme(a) == "max":
+                out.add("hi")
+    return out
+
+
 def sort_index_values(chk, repo, si):
     """R05.4 Binner._get_sort_index::every-path-gives-the-stable-order (see the section comment)"""
     cell = "self.sort_index"
@@ -2874,8 +3460,8 @@ def sort_index_values(chk, repo, si):
             vs.append(True if cached else None)
             continue
         shown.add(norm(v))
-        facts = {f for f in (_order_fact(t, truth) for t, truth in st.conds) if f}
-        guard = " and ".join("%s`%s`" % ("" if truth else "not ", norm(t)) for t, truth in st.conds if _order_fact(t, truth)) or "no condition on the order of the data"
+        facts = _path_order_facts(st)
+        guard = " and ".join("%s`%s`" % ("" if truth else "not ", norm(t)) for t, truth in st.conds if _order_facts(t, truth)) or "no condition on the order of the data"
         if _stable_argsort(v):
             vs.append(True)
             continue
@@ -2928,9 +3514,12 @@ def _stale_reads(e, cells):
 
 
 def limits(chk, repo):
-    fi = repo.func(ST + "Binner._get_minmax_and_indices")
+    fi = method(repo, "limits")
     chk.analysed_unit(fi.qualname)
     paths = _paths(repo, fi)
+    if paths is not None:
+        inv = cell_invariants(repo, fi)
+        paths = [canonical_path(st, inv) for st in paths]
     lo_p, hi_p = ("min", "max") if "min" in fi.params and "max" in fi.params else tuple(fi.params[1:3])
     v_incl, v_filt, v_def, v_org, v_appl = [], [], [], [], []
     shown = set()
@@ -3007,11 +3596,19 @@ def limits(chk, repo):
                         v_filt.append(None)
                     continue
                 if _is_sort_index(w):
-                    # unfiltered: only right when no limit was given
-                    v_appl.append(lo is None and hi is None)
+                    # unfiltered: right when no limit was given, or on a path whose conditions say that every given limit lies at or
+                    # beyond the data extreme on its side (the filter would keep everything); wrong when a limit is given and
+                    # nothing on the path looks at its value
+                    need = {side for side, g in (("lo", lo), ("hi", hi)) if g is not None}
+                    if need <= _vacuous_limits(st, flags, lo_p, hi_p):
+                        v_appl.append(True)
+                    else:
+                        looked = [t for t, _ in st.conds if eval_test(_simp(t, flags), flags) is None and
+                                  _mentions(_simp(t, flags), {p for p, side in ((lo_p, "lo"), (hi_p, "hi")) if side in need})]
+                        v_appl.append(None if looked else False)
                     v_filt.append(True)
                     continue
-                b = pat.match("_S[_SEL]", w)
+                b = pat.match("_S[_SEL]", _uncopied(w))
                 if b is None or not _is_sort_index(b["_S"]):
                     v_filt.append(None)
                     continue
@@ -3116,10 +3713,10 @@ def dispatch(chk, repo, dh):
     (binsize, nbin, rev).  Stated on the calls each path performs, in order, with the values that reach them; how the
     selection is spelled (if / elif chain, guard clause that raises first, nested tests) does not matter."""
     import itertools
-    lim_f = repo.func(ST + "Binner._get_minmax_and_indices")
-    hb_f = repo.func(ST + "Binner._hist_by_binsize_or_nbin")
-    hn = "self._hist_by_num"
-    paths = _paths(repo, dh, opaque=(lim_f.name, hb_f.name, "_hist_by_num", "calc_stats", "_get_sort_index"))
+    lim_f = method(repo, "limits")
+    hb_f = method(repo, "equal")
+    hn = "self." + method(repo, "bynum").name
+    paths = _paths(repo, dh, opaque=(lim_f.name, hb_f.name, hn[5:], "calc_stats", method(repo, "sortidx").name))
     opts = [p for p in ("nperbin", "nbin", "binsize") if p in dh.params]
     vs, shown, why = [], set(), set()
     if len(opts) != 3 or "min" not in dh.params or "max" not in dh.params:
